@@ -21,7 +21,7 @@ META = {
     "technique": "TLA+ contract (Pattern B) of repartition / from_pandas over partitioned frames; TLC enumerates sources x "
                  "partitionings x requests and checks the contract's satisfiability; replay on real collections with exactly "
                  "those partitions, every partition computed separately; recorded observations decided by TLC",
-    "level_text": "Small-scope: TLC enumerates every sorted/unsorted label sequence (quick <= 4 rows over 3 labels, thorough <= 6), "
+    "level_text": "Small-scope: TLC enumerates every sorted/unsorted label sequence (quick <= 3-4 rows over 2-3 labels, thorough <= 6 rows over 3 labels), "
                   "every source partitioning with <= 3 (4) parts incl. empty ones, every truthful declared division vector or unknown "
                   "divisions, every npartitions 1..6, every requested division vector over the label range +-1 (legal or not, force "
                   "on/off), partition sizes, from_pandas(npartitions|chunksize 1..6, sort on/off); a seeded sample of the enumerated "
@@ -115,7 +115,7 @@ def classify(rec, clauses):
 def bounds(ctx):
     B = lambda rows, labels, parts, maxn, maxd, urows: dict(rows=rows, labels=labels, parts=parts, maxn=maxn, maxd=maxd, urows=urows)  # noqa: E731
     if ctx.quick:
-        return {"n": B(4, 3, 3, 6, 2, 0), "d": B(3, 2, 2, 3, 2, 0), "size": B(3, 2, 3, 3, 2, 0), "fp": B(4, 3, 1, 6, 2, 4)}
+        return {"n": B(3, 3, 3, 6, 2, 0), "d": B(2, 2, 2, 3, 2, 0), "size": B(3, 2, 2, 3, 2, 0), "fp": B(4, 3, 1, 5, 2, 3)}
     return {"n": B(6, 3, 4, 6, 2, 4), "d": B(3, 3, 3, 3, 2, 0), "size": B(4, 3, 3, 3, 2, 3), "fp": B(6, 3, 1, 6, 2, 6)}
 
 
@@ -230,7 +230,7 @@ def run(ctx):
     byfam = {}
     for c in cases:
         byfam.setdefault(c["c"]["fam"], []).append(c["c"])
-    quota = ctx.pick({"n": 2000, "d": 1500, "size": 300, "fp": 900}, {"n": 16000, "d": 10000, "size": 2000, "fp": 6000})
+    quota = ctx.pick({"n": 1500, "d": 1100, "size": 200, "fp": 700}, {"n": 16000, "d": 10000, "size": 2000, "fp": 6000})
     items = []
     for fam in sorted(byfam):
         pool = byfam[fam]
@@ -240,7 +240,7 @@ def run(ctx):
         pick = must + rng.sample(rest, min(len(rest), quota[fam] - len(must)))
         ctx.extra["replayed_%s" % fam] = "%d of %d" % (len(pick), len(pool))
         items += [(c, "int") for c in pick]
-    nrand = ctx.pick(600, 6000)
+    nrand = ctx.pick(450, 6000)
     items += [(c, rng.choice(KINDS)) for c in random_cases(rng, nrand)]
     bad, recs, skips = check_cases(ctx, items, "contract:recorded-observations")
     for s in skips:
